@@ -90,12 +90,14 @@ fn main() {
         "c16-symlink" => cli::c16_symlink_cases(&mut rng, &tier, &mut out),
         "c02" => repair::c02_cases(&mut rng, &tier, &mut out),
         "c13-hdr" => hdrsrc::c13_hdr_cases(&mut rng, &tier, &mut out),
+        "c02-src" => repair::c02_src_cases(&mut rng, &tier, &mut out),
         "c02-small" => hdrsrc::c02_small_cases(&mut rng, &tier, &mut out),
         "c02-comp" => fscomp::c02_comp_cases(&mut rng, &tier, &arg(&args, "--aspect").unwrap_or_default(), &mut out),
         "c05" => repair::c05_cases(&mut rng, &tier, &mut out),
         "c05-blocks" => repair::c05_blocks_cases(&mut rng, &tier, &mut out),
         "c05-ids" => repair::c05_ids_cases(&mut rng, &tier, &mut out),
         "c03" => integrity::c03_cases(&mut rng, &tier, &mut out),
+        "c03-lengths" => integrity::c03_unaltered_sweep(&mut rng, &tier, &mut out),
         "c04" => integrity::c04_cases(&mut rng, &tier, &mut out),
         "c07" => confid::c07_cases(&mut rng, &tier, &mut out),
         "c07-child" => confid::child(),
